@@ -86,6 +86,45 @@ CLAIMS = {
        "state is opaque; recursion is handled by induction (same contract).",
   technique="contract-based deductive verification (dominance obligations via ghost flags in symbolic execution of the real nested function) + bounded stand-in",
   design_ref="DESIGN.md section 6, C11"),
+ "C05": dict(
+  category="proof",
+  text="Monitor proof over the real source of strax/mailbox.py, valid for every interleaving of sender and reader threads: each "
+       "locked section of subscribe / send / close / kill / _read (eager and lazy variants) re-establishes the invariant (every "
+       "buffered message was sent under its own number; a sent message some subscriber has not read is still buffered - no loss; read "
+       "positions only cover sent messages; len(buffer) <= max_messages; the end marker is the highest message), keeps its guarantee "
+       "towards other threads, and notifies every condition whose wait predicate it may switch on. The reader generator is proved to "
+       "hand out exactly res(Sent[0]), res(Sent[1]), ... in number order, each once, futures replaced by their results, and to stop at "
+       "the end marker; send accepts explicit numbers in any order and refuses numbers already read.",
+  note="Safety only: termination of the iteration, deadlock freedom, timeouts and the sufficiency of a capacity for a given "
+       "displacement are not decided (liveness). Protocol assumptions from the property are preconditions (subscribers register "
+       "before the first send; one implicit sender or distinct explicit numbers; lazy => implicit numbering). Trusted: the monitor "
+       "rule implementation, the heapq-as-finite-map abstraction, RLock/Condition semantics, pyvc, z3.",
+  technique="contract-based deductive verification with the monitor (rely/guarantee) rule: invariant + signal obligations per atomic section, ghost history, z3",
+  design_ref="DESIGN.md sections 2.7 and 6, C05"),
+ "C13": dict(
+  category="proof",
+  text="For every interleaving: (eager) no mailbox buffers more than max_messages - the capacity clause is part of the monitor "
+       "invariant re-established by every locked section; (lazy) _can_fetch is proved equal to its specification, the sender thread "
+       "advances its source only after the gate answered True (dominance obligation at next(iterable)), readers publish their demand "
+       "before sleeping, and every section that can switch the gate on notifies the fetch condition; lock discipline and the shape of "
+       "divide_outputs are structural (AST) obligations.",
+  note="Not decided: the quantitative clause (pipeline comes to rest after a number of further source chunks independent of the run "
+       "length) - whole-pipeline and schedule dependent; ThreadedMailboxProcessor wiring (lazy only without pools, savers do not "
+       "drive) is not yet under contract; divide_outputs only structurally.",
+  technique="contract-based deductive verification (monitor rule, dominance obligations via ghost state) + structural AST obligations",
+  design_ref="DESIGN.md section 6, C13"),
+ "C06": dict(
+  category="other",
+  text="Exception-relay contracts of the mailbox layer, proved over the real source: kill_from_exception (original reason of a "
+       "MailboxKilled is propagated, anything else re-raised after the kill), kill (flags, reason set once, all three conditions "
+       "notified), the sender thread _send_from (every exception from the source or from send kills the mailbox; a failed send is "
+       "thrown into the source first; regular exhaustion closes), send/_read re-checking the kill flags after every wait, and the "
+       "reader killing the mailbox on a consumer exception at yield. This is the safety half only.",
+  note="'every pipeline thread terminates', 'never hangs' and 'terminates when the capacity exceeds the largest lag' are liveness "
+       "properties this family cannot decide; the level is therefore 'other', not 'proof'. Processor-level relay "
+       "(ThreadedMailboxProcessor.iter etc.) is not yet under contract.",
+  technique="contract-based deductive verification of exceptional postconditions (ghost flags for kill/close calls) + structural obligations",
+  design_ref="DESIGN.md section 6, C06"),
 }
 
 NA_REASON = "check not built yet (see DESIGN.md section 6 for the plan)"
